@@ -1,9 +1,27 @@
 // Package props holds one file per property: the rules instantiated for it.
 package props
 
-import "goblcheck/core"
+import (
+	"os"
+
+	"goblcheck/core"
+)
 
 // Registry maps property ids to their checks.
 var Registry = map[string]func(*core.Ctx){}
 
 func register(id string, fn func(*core.Ctx)) { Registry[id] = fn }
+
+// subject is the program being analysed by the current run (for data files
+// read outside the Go loader, so that in-memory variants are honoured).
+var subject *core.Program
+
+// SetSubject records the program whose data files readSubjectFile serves.
+func SetSubject(p *core.Program) { subject = p }
+
+func readSubjectFile(abs string) ([]byte, error) {
+	if subject != nil {
+		return subject.ReadFile(abs)
+	}
+	return os.ReadFile(abs)
+}
